@@ -148,11 +148,12 @@ PROPS["C01"] = {
     "level_note": RT_NOTE + "; QR block and alignment tables generated from an unrelated implementation found on this machine (npm qrcode-terminal, one known error corrected) and validated against the module-count formula; mask choice and segmentation are not judged",
     "parts": [
         {"name": "regression", "kind": "plain", "test": "TestReplayDir"},
+        {"name": "procs", "kind": "plain", "test": "TestC01Procs"},
         {"name": "hash-twins", "kind": "plain", "test": "TestC01Twins"},
         {"name": "magic", "kind": "plain", "test": "TestC01Magic"},
         {"name": "sweep", "kind": "plain", "test": "TestC01Sweep", "plain_shards": 2},
         {"name": "zero-ecc", "kind": "plain", "test": "TestC01ZeroECC"},
-        {"name": "rapid", "kind": "rapid", "test": "TestC01Rapid", "checks": {"quick": 16000, "thorough": 1200000}},
+        {"name": "rapid", "kind": "rapid", "test": "TestC01Rapid", "checks": {"quick": 16000, "thorough": 400000}},
     ],
     "universes": {"qr_layouts": QR_LAYOUTS, "qr_versions": [str(v) for v in range(1, 41)], "qr_masks": [str(m) for m in range(8)],
                   "qr_layout_x_mode": [f"{x}-{m}" for x in QR_LAYOUTS for m in ("numeric", "alnum", "byte")]},
@@ -170,11 +171,12 @@ PROPS["C02"] = {
     "level_note": RT_NOTE + "; 144x144 block layout per ISO 16022 (stream codeword p belongs to block p mod 10)",
     "parts": [
         {"name": "regression", "kind": "plain", "test": "TestReplayDir"},
+        {"name": "procs", "kind": "plain", "test": "TestC02Procs"},
         {"name": "hash-twins", "kind": "plain", "test": "TestC02Twins"},
         {"name": "magic", "kind": "plain", "test": "TestC02Magic"},
         {"name": "sweep", "kind": "plain", "test": "TestC02Sweep", "plain_shards": 2},
         {"name": "zero-ecc", "kind": "plain", "test": "TestC02ZeroECC"},
-        {"name": "rapid", "kind": "rapid", "test": "TestC02Rapid", "checks": {"quick": 30000, "thorough": 1500000}},
+        {"name": "rapid", "kind": "rapid", "test": "TestC02Rapid", "checks": {"quick": 30000, "thorough": 600000}},
     ],
     "universes": {"dm_sizes": [str(n) for n in (10, 12, 14, 16, 18, 20, 22, 24, 26, 32, 36, 40, 44, 48, 52, 64, 72, 80, 88, 96, 104, 120, 132, 144)],
                   "dm_blocks": ["1", "2", "4", "6", "8", "10"], "dm_corner_cases": ["0", "1", "2", "3", "4"]},
@@ -192,10 +194,11 @@ PROPS["C04"] = {
     "level_note": RT_NOTE + "; the 3x929 pattern table is a frozen copy of the pinned tree validated structurally (17 modules, 4+4 elements of width 1..6, cluster formula, distinctness) - no second source exists offline; shape choice and compaction choices are not judged",
     "parts": [
         {"name": "regression", "kind": "plain", "test": "TestReplayDir"},
+        {"name": "procs", "kind": "plain", "test": "TestC04Procs"},
         {"name": "hash-twins", "kind": "plain", "test": "TestC04Twins"},
         {"name": "magic", "kind": "plain", "test": "TestC04Magic"},
         {"name": "sweep", "kind": "plain", "test": "TestC04Sweep", "plain_shards": 2},
-        {"name": "rapid", "kind": "rapid", "test": "TestC04Rapid", "checks": {"quick": 50000, "thorough": 2000000}},
+        {"name": "rapid", "kind": "rapid", "test": "TestC04Rapid", "checks": {"quick": 50000, "thorough": 700000}},
     ],
     "universes": {"pdf_patterns": [f"{c}/{v}" for c in range(3) for v in range(929)], "pdf_rows": [str(r) for r in range(2, 31)],
                   "pdf_cols": [str(c) for c in range(2, 31)], "pdf_levels": [str(l) for l in range(9)],
@@ -219,11 +222,12 @@ PROPS["C03"] = {
     "level_note": RT_NOTE + "; the data-layer geometry follows the reading used by the ZXing reader and is self-tested on two externally sourced symbols (compact 3-layer, full 6-layer); which mode path the encoder takes is not judged; acceptance near capacity is judged in C10/C13",
     "parts": [
         {"name": "regression", "kind": "plain", "test": "TestReplayDir"},
+        {"name": "procs", "kind": "plain", "test": "TestC03Procs"},
         {"name": "hash-twins", "kind": "plain", "test": "TestC03Twins"},
         {"name": "magic", "kind": "plain", "test": "TestC03Magic"},
         {"name": "known-findings", "kind": "plain", "test": "TestC03KnownFindings"},
         {"name": "sweep", "kind": "plain", "test": "TestC03Sweep", "plain_shards": 2},
-        {"name": "rapid", "kind": "rapid", "test": "TestC03Rapid", "checks": {"quick": 30000, "thorough": 1200000}},
+        {"name": "rapid", "kind": "rapid", "test": "TestC03Rapid", "checks": {"quick": 30000, "thorough": 360000}},
     ],
     "universes": {"aztec_sizes": AZTEC_SIZES, "aztec_word_sizes": ["6", "8", "10", "12"]},
     "rule": "payload = 0..9 grammar segments (upper, lower, digit, mixed-control, punctuation runs, the four two-character punctuation pairs, binary runs of "
@@ -242,7 +246,7 @@ PROPS["C12"] = {
     "parts": [
         {"name": "regression", "kind": "plain", "test": "TestReplayDir"},
         {"name": "sweep", "kind": "plain", "test": "TestC12Sweep"},
-        {"name": "rapid", "kind": "rapid", "test": "TestC12Rapid", "checks": {"quick": 16000, "thorough": 800000}},
+        {"name": "rapid", "kind": "rapid", "test": "TestC12Rapid", "checks": {"quick": 16000, "thorough": 300000}},
     ],
     "rule": "cases from the C01-C04 generators with the EC parameter drawn uniformly (QR L/M/Q/H, PDF417 0..8, Aztec ecc% from a fixed list or U(0..100) with "
             "layers 0/-4..-1/1..32); sweep = all 160 QR layouts at capacity, 9 PDF417 levels x 6 sizes, 24 DataMatrix sizes, Aztec 8 percentages x payload "
@@ -258,7 +262,7 @@ PROPS["C13"] = {
         {"name": "regression", "kind": "plain", "test": "TestReplayDir"},
         {"name": "sweep", "kind": "plain", "test": "TestC13Sweep"},
         {"name": "twin-histories", "kind": "plain", "test": "TestC13QRTwinHistories", "plain_shards": 8},
-        {"name": "rapid", "kind": "rapid", "test": "TestC13Rapid", "checks": {"quick": 12000, "thorough": 600000}},
+        {"name": "rapid", "kind": "rapid", "test": "TestC13Rapid", "checks": {"quick": 12000, "thorough": 250000}},
     ],
     "rule": "sweep: QR 40 versions x 4 levels x 3 modes x {capacity, previous capacity + 1} x {explicit mode, Auto}; DataMatrix 24 sizes x {capacity, capacity-1, previous "
             "capacity+1}; PDF417 homogeneous contents of every 5th (thorough: every) length up to beyond capacity x levels; Aztec payload lengths 1..capacity "
@@ -330,6 +334,7 @@ PROPS["C15"] = {
     "parts": [
         {"name": "regression", "kind": "plain", "test": "TestReplayDir"},
         {"name": "orders", "kind": "plain", "test": "TestC15Orders"},
+        {"name": "eviction", "kind": "plain", "test": "TestC15Eviction"},
         {"name": "determinism", "kind": "rapid", "test": "TestC15Determinism", "checks": {"quick": 24000, "thorough": 800000}},
         {"name": "rapid", "kind": "rapid", "test": "TestC15Rapid", "checks": {"quick": 640, "thorough": 24000}, "shrinktime": "60s"},
     ],
@@ -417,5 +422,17 @@ RULE_ADDENDA['C17'] += ' A second division by the same divisor object after its 
 RULE_ADDENDA['C18'] += ' iterhold = a view read to exactly its length and kept: it must yield nothing more after later appends; one slow consumer (2.5 s pause, thorough 11 s).'
 RULE_ADDENDA['C10'] += ' Also lengths that wrap 16-/17-bit counters (2^16, 2^16+5, 2^16+1000, 2^17, ...) for every 2D symbology, and the same foreign byte twice at pair starts / pair ends.'
 RULE_ADDENDA['C11'] = ' Schemes also: black/white/red written in seven colour types (look-alikes), a caller-defined colour type, *image.Uniform.'
+for _pid in ('C01', 'C02', 'C03', 'C04'):
+    RULE_ADDENDA[_pid] = RULE_ADDENDA.get(_pid, '') + ' procs part: a dozen multi-block symbols encoded and read back under every GOMAXPROCS value 1..12.'
+RULE_ADDENDA['C15'] += ' eviction part: one call, 20000 (2D: 9000) different small calls of the same family, the first call (and four of the early others) again.'
+RULE_ADDENDA['C03'] += ' The payload is handed over as a window into a larger guard buffer that is compared afterwards.'
+RULE_ADDENDA['C17'] += ' Reed-Solomon data is a window into a larger guard buffer; polynomials returned by earlier operations are overwritten (unless they are the operands themselves) before a fresh division.'
+RULE_ADDENDA['C18'] += ' Variadic appends are windows into a larger guard buffer; thorough: one list of 2^32+4096 bits spot-checked around the 2^32 boundary.'
+RULE_ADDENDA['C16'] += ' Also: GOMAXPROCS 3/5/6/7; 48 goroutines making the same call at once, then one result painted over through its mutator (the others must stay what they were).'
+RULE_ADDENDA['C14'] += ' exhaustive part also: an early content checked again after 20000 other contents; one character repeated 66000/70000 times.'
+RULE_ADDENDA['C10'] += ' PDF417 also: >= 5 upper-case characters followed by >= 13 digits sized to the budget, -1, -3, +1 (exact count).'
+RULE_ADDENDA['C09'] += ' A result exposes CheckSum() exactly when its source does; a result that reports a colour scheme is drawn in it; giant part also scales giant SOURCES (a view of more than 10^9 pixels a side).'
+RULE_ADDENDA['C11'] += ' Sweep also: a slice-based colour type and color.Palette as the model (values that cannot be compared with ==).'
+RULE_ADDENDA['C07'] += ' thorough: 8 million characters (32-bit sums).'
 for _pid, _add in RULE_ADDENDA.items():
     PROPS[_pid]["rule"] += _add
